@@ -630,3 +630,25 @@ pub fn default_bodies(tokens: &str) -> Result<Vec<(String, Vec<(String, Sexp)>)>
     }
     Ok(out)
 }
+
+/// the string-literal TOKENS (source text, escapes as emitted) of the `OPERATION_NAME` and `QUERY` constants of every
+/// generated module in `tokens`: (module name, constant name, token text). The printer that wrote the token is the one
+/// under test (proc_macro2's `Literal::string`), the reader is proc_macro2's lexer, which keeps the text as written.
+pub fn const_literal_tokens(tokens: &str) -> Result<Vec<(String, String, String)>, String> {
+    let file: syn::File = syn::parse_str(tokens).map_err(|e| e.to_string())?;
+    let mut out = Vec::new();
+    for it in &file.items {
+        if let syn::Item::Mod(m) = it {
+            if let Some((_, content)) = &m.content {
+                for c in content {
+                    if let syn::Item::Const(c) = c {
+                        if let syn::Expr::Lit(syn::ExprLit { lit: syn::Lit::Str(l), .. }) = &*c.expr {
+                            out.push((m.ident.to_string(), c.ident.to_string(), l.token().to_string()));
+                        }
+                    }
+                }
+            }
+        }
+    }
+    Ok(out)
+}
